@@ -178,7 +178,7 @@ Section Count.
   Proof.
     intros H1 H2. apply in_Hl in H1 as (j & Hj & ->). apply in_Hl in H2 as (k & Hk & ->). apply in_Hl.
     exists ((j + k) mod n). split; [apply Z.mod_pos_bound; lia|].
-    rewrite (smul_mod p a b n G CF) by lia. apply (smul_add p a b CG); auto; lia.
+    rewrite (smul_mod p a b n G CF) by lia. symmetry. apply (smul_add p a b CG); auto; lia.
   Qed.
 
   Lemma Hl_inv Q : In Q Hl -> In (pneg p Q) Hl.
